@@ -50,3 +50,44 @@ def cache_keys(ctx, scopes, what):
                     ctx.violate(qual, 'memo %s is looked up with `%s`, but the cached value also depends on %s' % (memo.container, norm(memo.lookup_key), ', '.join(miss_p + miss_a)), memo.store_node,
                                 'two calls that differ only in %s share one cache entry: the second gets the result of the first' % ', '.join(miss_p + miss_a))
     ctx.saw('%s: %d functions scanned for keyed memos, %d found' % (what, n_fn, n_memo))
+
+
+def _attr_fixture_selftest(ctx):
+    path = os.path.join(VERIF_DIR, 'fixtures', 'cache_memos.py')
+    from ..core import ModuleInfo
+    src = open(path).read()
+    mi = ModuleInfo('fixture', 'fixtures/cache_memos.py', src, ast.parse(src))
+    memos = cache.attr_memos(mi, 'AttrFixture')
+    names = sorted(m.attr for m in memos)
+    if names != ['_digest', '_tag']:
+        raise AnalysisError('attribute-memo fixture: memos %s detected, expected _digest and _tag' % names)
+    lazy = set(names) | set(a for x in memos for a in getattr(x, 'companions', ()))
+    res = {}
+    for m in memos:
+        res[m.attr] = sorted('%s.%s' % (w[0], w[1]) for w in cache.stale_writers(mi, ['AttrFixture', 'AttrFixtureGood'], m, lazy))
+    if res != {'_digest': ['AttrFixture.flip_bad'], '_tag': []}:
+        raise AnalysisError('attribute-memo fixture classified %s' % res)
+    ctx.saw('attribute-memo self-test on fixtures: %s' % res)
+
+
+def attr_memos(ctx, modname, families, what, why):
+    """``families``: list of class-name lists (a class and the subclasses that can change its state)"""
+    _attr_fixture_selftest(ctx)
+    m = ctx.repo.mod(modname)
+    n = 0
+    for fam in families:
+        memos = []
+        for c in fam:
+            if c not in m.classes:
+                raise AnalysisError('anchor class %s:%s vanished' % (modname, c))
+            memos += cache.attr_memos(m, c)
+        lazy = set(x.attr for x in memos) | set(a for x in memos for a in getattr(x, 'companions', ()))
+        for memo in memos:
+            n += 1
+            qual = '%s:%s.%s' % (modname, memo.cls, memo.method)
+            need = sorted(memo.deps - memo.validated - lazy)
+            ctx.saw('%s caches self.%s; unvalidated state it depends on: %s' % (qual, memo.attr, need))
+            for cname, mname, attr, node in cache.stale_writers(m, fam, memo, lazy):
+                ctx.violate('%s:%s.%s' % (modname, cname, mname), '%s.%s assigns self.%s, on which the cached self.%s (filled by %s.%s) depends, without resetting the cache' % (cname, mname, attr, memo.attr, memo.cls, memo.method), node, why)
+    ctx.saw('%s: %d attribute memos analysed' % (what, n))
+    return n
